@@ -89,6 +89,11 @@ func (m *resourceManager) registerResource(resource *Resource, handler resourceH
 			if err != nil {
 				return nil, err
 			}
+			// A handler that returns neither contents nor an error has failed: "contents": [null] is not
+			// a ReadResourceResult.
+			if content == nil {
+				return nil, fmt.Errorf("resource handler returned no contents (resource: %s)", req.Params.URI)
+			}
 			return []ResourceContents{content}, nil
 		},
 	}
